@@ -103,6 +103,14 @@ type CheckConfig struct {
 	SolverName string
 }
 
+// crossEvery: every n-th assertion verdict is re-asked to the second solver.
+func crossEvery(tier string) int {
+	if tier == "thorough" {
+		return 20
+	}
+	return 200
+}
+
 func goEnv() []string {
 	env := os.Environ()
 	env = append(env, "GOFLAGS=-mod=mod", "GOPROXY=off")
@@ -414,6 +422,7 @@ func RunCheck(cfg *CheckConfig) *CheckOutcome {
 	var vacuous []string
 	inconclusive := 0
 	solver := map[string]interface{}{}
+	crossAsked, crossAgree, crossDis, crossUnk := 0, 0, 0, 0
 	sat, unsat, unk := 0, 0, 0
 	ssec := 0.0
 	var allFindings []Finding
@@ -425,7 +434,8 @@ func RunCheck(cfg *CheckConfig) *CheckOutcome {
 			share = 5 * time.Second
 		}
 		opts := ExploreOpts{Workers: cfg.Workers, Tier: cfg.Tier, Deadline: time.Now().Add(share), MaxPaths: plan.MaxPaths,
-			PanicIsFinding: plan.Panic, SharedIsFinding: plan.Shared, CostIsFinding: plan.Cost, BudgetIsFinding: plan.Cost, SolverName: cfg.SolverName}
+			PanicIsFinding: plan.Panic, SharedIsFinding: plan.Shared, CostIsFinding: plan.Cost, BudgetIsFinding: plan.Cost, SolverName: cfg.SolverName,
+			CrossSolver: "z3-new", CrossEvery: crossEvery(cfg.Tier)}
 		rep := w.Explore(h, opts)
 		reports = append(reports, rep)
 		fmt.Println(rep.Summary())
@@ -454,6 +464,10 @@ func RunCheck(cfg *CheckConfig) *CheckOutcome {
 			fmt.Println("VACUOUS-HARNESS:", h, "- no path reached an assertion; its obligations are not discharged")
 		}
 		inconclusive += rep.Inconclusive
+		crossAsked += rep.CrossAsked
+		crossAgree += rep.CrossAgree
+		crossDis += rep.CrossDis
+		crossUnk += rep.CrossUnk
 		sat += rep.SolverSat
 		unsat += rep.SolverUnsat
 		unk += rep.SolverUnk
@@ -473,6 +487,7 @@ func RunCheck(cfg *CheckConfig) *CheckOutcome {
 		}
 	}
 	solver["z3"] = map[string]interface{}{"sat": sat, "unsat": unsat, "unknown": unk}
+	solver["z3-new (second opinion on a sample of deciding unsat verdicts)"] = map[string]interface{}{"asked": crossAsked, "agree": crossAgree, "disagree": crossDis, "unknown": crossUnk}
 
 	// counterexamples -> files -> native replay
 	cexDir := filepath.Join(cfg.VerifDir, "out", cfg.Property)
